@@ -354,7 +354,9 @@ def real_rate(name, cert, size, ca_type, ca_size):
         b, a = before[t], db['key'][t]
         bf = b[1] if len(b) > 1 else []
         bw = b[2] if len(b) > 2 else []
-        res[t] = {'fails': a[1][len(bf):], 'warns': a[2][len(bw):], 'prefix_kept': a[1][:len(bf)] == bf and a[2][:len(bw)] == bw and a[0] == b[0] and a[3:] == b[3:],
+        a1 = a[1] if len(a) > 1 else []      # (an entry the probe did not pad keeps its short form)
+        a2 = a[2] if len(a) > 2 else []
+        res[t] = {'fails': a1[len(bf):], 'warns': a2[len(bw):], 'prefix_kept': a1[:len(bf)] == bf and a2[:len(bw)] == bw and a[0] == b[0] and a[3:] == b[3:],
                   'before': b, 'after': copy.deepcopy(a)}
     untouched = all(db['key'][k] == before[k] for k in before if k not in targets)
     hk = {k: dict(v) for k, v in kex.host_keys().items()}
